@@ -100,6 +100,16 @@ def frozenIn (t : List Access) (f : Nat) : Prop :=
 def frozenInB (t : List Access) (f : Nat) : Bool :=
   t.all fun a => !(a.field == f) || !(a.kind == Kind.W) || a.phase == Phase.init
 
+/-- A reader that relies on nothing: live, on any goroutine, no lock, no close edge — the synthetic
+`caller:consumer` row the generator emits for every `published:` location (a caller that reads a
+message it was given). -/
+def bareReader (r : Access) : Prop :=
+  r.kind = Kind.R ∧ r.phase = Phase.live ∧ r.role = 0 ∧ r.held = [] ∧ r.relAfter = [] ∧ r.acqBefore = []
+
+def bareReaderB (r : Access) : Bool :=
+  r.kind == Kind.R && r.phase == Phase.live && r.role == 0 && r.held.isEmpty && r.relAfter.isEmpty
+    && r.acqBefore.isEmpty
+
 /-! ### Executable versions (what `decide`, the driver and the harness evaluate) -/
 
 def conflictB (a b : Access) : Bool :=
